@@ -392,6 +392,9 @@ func runConc(plan *Plan, tape *simrt.Tape) *Outcome {
 	if x.viol == nil && out.Inconclusive == "" && !finished {
 		out.Inconclusive = "unfinished"
 	}
+	if x.viol == nil {
+		x.checkGCOverlap()
+	}
 	if x.viol == nil && finished {
 		x.checkHistory()
 	}
@@ -716,8 +719,52 @@ func (x *concExec) checkHistory() {
 	}
 }
 
+// checkGCOverlap (C17): at most one pass runs on a bucket at a time.
+func (x *concExec) checkGCOverlap() {
+	var passes []simrt.TaskInfo
+	for _, t := range x.g.W.Tasks() {
+		if t.Name == "store.gcMgr.gc" {
+			passes = append(passes, t)
+		}
+	}
+	if len(passes) >= 2 {
+		x.out.probe("two-gc-requests-accepted")
+	}
+	for i := 0; i < len(passes); i++ {
+		for j := i + 1; j < len(passes); j++ {
+			a, b := passes[i], passes[j]
+			aEnd, bEnd := a.LastStep, b.LastStep
+			if !a.Done {
+				aEnd = 1 << 62
+			}
+			if !b.Done {
+				bEnd = 1 << 62
+			}
+			if a.FirstStep < bEnd && b.FirstStep < aEnd {
+				x.fail("R-gc-overlap", "", fmt.Sprintf("two GC passes on one bucket were accepted and alive at the same time: task %d steps [%d,%d] and task %d steps [%d,%d]",
+					a.ID, a.FirstStep, a.LastStep, b.ID, b.FirstStep, b.LastStep))
+				return
+			}
+		}
+	}
+}
+
 func init() {
 	for _, p := range []string{"C04", "C05"} {
 		engines[p] = engine{genConcPlan, runConc}
+	}
+	engines["C17"] = engine{
+		gen: func(prop string, seed uint64, tier string) *Plan {
+			if seed%3 == 0 {
+				return genConcPlan(prop, seed, tier)
+			}
+			return genSeqPlan(prop, seed, tier)
+		},
+		run: func(p *Plan, tape *simrt.Tape) *Outcome {
+			if p.Extra["env"] == 1 {
+				return runConc(p, tape)
+			}
+			return runSeq(p, tape)
+		},
 	}
 }
